@@ -365,7 +365,37 @@ def shared_check():
                 elif re.search(MUT, ty):
                     failures.append(fail('-', 'C19.shared-state.static.%s' % name, 'static %s: %s is mutable state shared by all threads' % (name, ty.strip()[:60]), ['C19', 'C07'], at(m)))
                 elif re.search(ONCE, ty):
-                    undecided.append('%s: static %s: %s is initialised once and shared by all threads; whether results can depend on who initialises it is not decided' % (rel, name, ty.strip()[:60]))
+                    # initialised once, then read by every thread: harmless iff what it is initialised WITH does not depend on
+                    # the call that happens to come first.  Every initialiser (`NAME.get_or_init(|| E)`, `NAME.set(E)`) is looked
+                    # at: a free lower-case identifier of E that is neither called, nor a path segment, nor a field/method, nor
+                    # bound by a closure inside E is a local or a parameter of the surrounding function - data of ONE call
+                    inits = []
+                    for u in re.finditer(r'\b%s\s*\.\s*(get_or_init|get_or_try_init|get_mut_or_init|set|call_once)\s*\(' % re.escape(name), src):
+                        d, j = 0, u.end() - 1
+                        while j < len(src):
+                            if src[j] in '([{':
+                                d += 1
+                            elif src[j] in ')]}':
+                                d -= 1
+                                if d == 0:
+                                    break
+                            j += 1
+                        inits.append((u, src[u.end():j]))
+                    dep = None
+                    for u, e_ in inits:
+                        bound = set(re.findall(r'\b([a-z_]\w*)\b', ' '.join(re.findall(r'\|([^|]*)\|', e_))))
+                        for v in re.finditer(r'(?<![\w.:])([a-z_]\w*)\b(?!\s*(?:\(|::|!))', e_):
+                            w = v.group(1)
+                            if w in bound or w in ('move', 'as', 'if', 'else', 'match', 'let', 'mut', 'ref', 'true', 'false', 'self', 'in', 'for', 'while', 'loop', 'return', 'unsafe', 'crate', 'super', 'dyn', 'impl', 'where', 'fn', 'u8', 'u16', 'u32', 'u64', 'usize', 'i32', 'i64', 'isize', 'str', 'bool', 'char', 'f64', 'f32', '_'):
+                                continue
+                            dep = (u, w)
+                            break
+                        if dep:
+                            break
+                    if dep:
+                        failures.append(fail('-', 'C19.shared-state.once.%s' % name, 'static %s: %s is initialised by whichever call comes first with data of that call (`%s`) and then read by every thread' % (name, ty.strip()[:40], dep[1]), ['C19', 'C07'], at(dep[0])))
+                    elif not inits and not re.search(r'=\s*(?:\w+::)*(?:LazyLock|Lazy)\s*::\s*new', src[m.end():m.end() + 80]):
+                        undecided.append('%s: static %s: %s is initialised once and shared by all threads; no initialiser was found, so whether results can depend on who initialises it is not decided' % (rel, name, ty.strip()[:60]))
             for m in re.finditer(r'lazy_static!', src):
                 checked += 1
                 seg = src[m.end():m.end() + 600]
@@ -843,9 +873,12 @@ def _lit(e):
     return None
 
 
+UNK = 'unknown-byte'
+
+
 def _accepts(e, b1, b2):
-    """does parser expression e accept at a position whose next bytes are b1 and b2 (b2 None = end of input)?
-    True / False / None (construct outside this small evaluator)"""
+    """does parser expression e accept at a position whose next bytes are b1 and b2 (b2 None = end of input, UNK = not known)?
+    True / False / None (construct outside this small evaluator, or the answer depends on a byte that is not known)"""
     if e[0] != 'call' or e[1][0] not in ('var', 'path'):
         return None
     f, a = e[1][1], e[2]
@@ -861,6 +894,8 @@ def _accepts(e, b1, b2):
     if f == 'tag':
         l = _lit(a[0])
         if l is None or len(l) == 0 or len(l) > 2:
+            return None
+        if len(l) == 2 and b1 == l[0] and b2 == UNK:
             return None
         return b1 == l[0] and (len(l) == 1 or b2 == l[1])
     if f == 'alt':
@@ -887,12 +922,12 @@ def _lookahead(e, b):
         if inner[0] == 'call' and inner[1] == ('var', 'not'):
             if b is None:
                 return True                      # nothing follows: the negated parser cannot match
-            r = _accepts(inner[2][0], b, None)
-            # a longer tag inside the negation is not looked at: only one-byte alternatives are evaluated exactly
+            r = _accepts(inner[2][0], b, UNK)
+            # only the byte at the look-ahead position is known: a longer tag that starts with it is not decided
             return None if r is None else (not r)
         if b is None:
             return False                         # a positive look-ahead needs a character
-        return _accepts(inner, b, None)
+        return _accepts(inner, b, UNK)
     return None
 
 
@@ -946,4 +981,20 @@ def pp_total_run(fns, table, comb):
             fl['witness'] = dict(source='gvc look-ahead analysis', input=chr(b1) + ('' if b2 is None else chr(b2)), args=['pp', chr(b1) + ('' if b2 is None else chr(b2))],
                                  expected='TEXT (accepted, returned unchanged); a rejection prints ERR Preprocess(..)')
         failures.append(fl)
+    # the dual obligation: the run of plain text STOPS in front of everything another alternative of source_description must see.
+    # If it accepted the `/` of `//` or `/*`, a comment after plain text would become part of a NotDirective node and survive
+    # strip_comments (C18); a swallowed backtick hides a directive from every arm (C04, C05, C10, C11); a swallowed string or
+    # escaped-identifier opener lets the text inside be read as comments or directives (C18, C06)
+    for b1, b2s, what, props in ((ord('/'), (ord('/'), ord('*')), 'the `/` that opens a comment', ['C18']),
+                                 (ord('`'), [None] + list(range(256)), 'a backtick', ['C04', 'C05', 'C10', 'C11']),
+                                 (ord('"'), [None] + list(range(256)), 'the quote that opens a string literal', ['C18', 'C06']),
+                                 (ord('\\'), [None] + list(range(256)), 'the backslash that opens an escaped identifier', ['C18', 'C06'])):
+        checked += 1
+        rs = [_accepts(run, b1, b2) for b2 in b2s]
+        if any(r is True for r in rs):
+            b2 = [b for b, r in zip(b2s, rs) if r is True][0]
+            failures.append(fail('source_description_not_directive', 'C18.pp.plain-text-run-stops-before-%s' % {47: 'a-comment', 96: 'a-directive', 34: 'a-string-literal', 92: 'an-escaped-identifier'}[b1],
+                                 'the run of plain text consumes %s (followed by %s)' % (what, 'end of input' if b2 is None else repr(chr(b2))), props, nd))
+        elif any(r is None for r in rs):
+            undecided.append('source_description_not_directive: whether the run stops before %s is outside the look-ahead evaluator' % what)
     return dict(failures=failures, checked=checked, undecided=undecided)
